@@ -498,7 +498,14 @@ impl<const C: usize> VT for arrayvec::ArrayString<C> {
 }
 
 impl VT for std::net::SocketAddr {
-    fn any() -> Self { std::net::SocketAddr::V4(std::net::SocketAddrV4::new(std::net::Ipv4Addr::from_bits(anyv::<u32>()), anyv::<u16>())) }
+    // the variant of the written value is part of the shape (R5): shape_len() == 0 -> V4, >= 1 -> V6
+    fn any() -> Self {
+        if shape_len() >= 1 {
+            std::net::SocketAddr::V6(std::net::SocketAddrV6::new(std::net::Ipv6Addr::from_bits(anyv::<u128>()), anyv::<u16>(), anyv::<u32>(), anyv::<u32>()))
+        } else {
+            std::net::SocketAddr::V4(std::net::SocketAddrV4::new(std::net::Ipv4Addr::from_bits(anyv::<u32>()), anyv::<u16>()))
+        }
+    }
     fn enc(&self, out: &mut RefBuf) {
         match self {
             std::net::SocketAddr::V4(a) => { out.put(&[0u8]); out.put(&a.port().to_le_bytes()); out.put(&a.ip().to_bits().to_le_bytes()) }
